@@ -152,6 +152,27 @@ type ElementInstance = []Reference
 // Reference is the runtime representation of RefType which is either RefTypeFuncref or RefTypeExternref.
 type Reference = uintptr
 
+// globalTypeOf returns the type of the global at the given index in the global index space.
+// ok is false if its declaration is missing.
+func (m *Module) globalTypeOf(index Index) (_ GlobalType, ok bool) {
+	if index < m.ImportGlobalCount {
+		cur := Index(0)
+		for i := range m.ImportSection {
+			if imp := &m.ImportSection[i]; imp.Type == ExternTypeGlobal {
+				if cur == index {
+					return imp.DescGlobal, true
+				}
+				cur++
+			}
+		}
+		return GlobalType{}, false
+	}
+	if index -= m.ImportGlobalCount; int(index) < len(m.GlobalSection) {
+		return m.GlobalSection[index].Type, true
+	}
+	return GlobalType{}, false
+}
+
 // validateTable ensures any ElementSegment is valid. This caches results via Module.validatedActiveElementSegments.
 // Note: limitsType are validated by decoders, so not re-validated here.
 func (m *Module) validateTable(enabledFeatures api.CoreFeatures, tables []Table, maximumTableIndex uint32) error {
@@ -181,6 +202,11 @@ func (m *Module) validateTable(enabledFeatures api.CoreFeatures, tables []Table,
 			if ok {
 				if index >= globalsCount {
 					return fmt.Errorf("%s[%d].init[%d] global index %d out of range", SectionIDName(SectionIDElement), idx, ei, index)
+				}
+				// The value of the global is stored into the table as a reference as is.
+				if gt, ok := m.globalTypeOf(index); ok && gt.ValType != elem.Type {
+					return fmt.Errorf("%s[%d].init[%d] global.get %d: type mismatch: expected %s but was %s",
+						SectionIDName(SectionIDElement), idx, ei, index, RefTypeName(elem.Type), ValueTypeName(gt.ValType))
 				}
 			} else {
 				if elem.Type == RefTypeExternref {
